@@ -6,13 +6,14 @@ from common import drv, REPO
 import disklib as D
 import diskcase as K
 import diskengine as E
+import tapelib as T
 
 LEVEL_TEXT = ("Lean theorems (Props/C06.lean): sector-level frame lemmas of the model (putSector touches one sector, setBat touches "
               "bytes 1..160 of one sector only and only where the table changed, no-op perform + save = load's payloads); tie/oracle: "
               "pre-images from tool histories, from the independent writer (fragmented, deleted entries, extra reserved blocks, "
               "table tail 00/FF) and the bundled real image, then arbitrary batches; byte-level frame check of the result.")
 
-CL = {"old_files", "frame", "stored_match", "noop_identity", "fsck"}
+CL = {"old_files", "frame", "stored_match", "noop_identity", "fsck", "refusal_noop"}
 
 
 def add_to(ctx, res, stream, fl, pre_raw, items, verbose, origin):
@@ -49,6 +50,15 @@ def run(ctx, res):
         if i == 0:
             res.sample({"pre_image": {"files_per_side": [len(a["files"]) for a in asides], "deleted": [len(a["deleted"]) for a in asides]},
                         "batch": [("eos",) if it[0] == "eos" else (it[1], len(it[2])) for it in items][:6]})
+    # full catalog, fragmented free space: every added file is refused after its blocks were taken and must leave no trace
+    for i in range(ctx.n(4, 40)):
+        fl = rng.choice(["fd", "sd"])
+        nfull = rng.choice([1, 1, 2, 4])
+        asides = [E.gen_aside(rng, full_catalog=(k < nfull)) for k in range(4)]
+        pre = E.render_image(ctx, blobs, asides, fl, check_twin=(i == 0), res=res, stream="full_catalog_fragmented")
+        used = {f["name"].decode().rstrip() + "." + f["ext"].decode().rstrip() for a in asides for f in a["files"]}
+        items = [("file", D.gen_disk_name(rng, used), T.content_for(rng, s)) for s in rng.sample([0, 1, 2041, 4081, 10000, 30000, 2040 * 44], rng.choice([1, 2, 3]))]
+        add_to(ctx, res, "full_catalog_fragmented", fl, pre, items, rng.random() < 0.5, "independent writer, 112 live entries")
     for i in range(ctx.n(6, 100)):
         fl = rng.choice(["fd", "sd"])
         sc = K.Scenario(ctx, fl)
